@@ -136,3 +136,33 @@ def obj_arrays(cls):
 
 
 DICT_ARRAYS = ['dom', 'valR', 'cls']
+
+
+# ------------------------------------------------------------------ leaf registries (history invariant `Reg`)
+def Reg(S, cls):
+    """the leaf registry of cls is injective: list[i].counter == i, and every allocated leaf sits at its counter"""
+    L = S.g('%s.list_of_leaf_%ss' % (cls, cls.lower()))
+    N = S.g(cls + '.counter')
+    i, r = fresh('i', I), fresh('r', I)
+    e = S.elt(L, i)
+    a = z3.ForAll([i], z3.Implies(z3.And(i >= 0, i < N), z3.And(
+        e >= 0, e < S.alloc, S.cls(e) == tag(cls), S.fld(cls, '_is_leaf', e),
+        z3.Not(S.fld_none(cls, 'counter', e)), S.fld(cls, 'counter', e) == i)), patterns=[S.elt(L, i)])
+    c = S.fld(cls, 'counter', r)
+    b = z3.ForAll([r], z3.Implies(z3.And(r >= 0, r < S.alloc, isinstance_f(S.A('cls'), r, cls), S.fld(cls, '_is_leaf', r)),
+                                  z3.And(z3.Not(S.fld_none(cls, 'counter', r)), c >= 0, c < N, S.elt(L, c) == r)),
+                  patterns=[S.fld(cls, '_is_leaf', r)])
+    return z3.And(S.len(L) == N, N >= 0, a, b)
+
+
+def leaf_dict(S, cls, e):
+    d = S.dd(cls, e)
+    return z3.And(forall_k(lambda k: S.has(d, k) == (k == Obj(e))), S.get(d, Obj(e)) == 1)
+
+
+def leafE(S, i):
+    return Obj(S.elt(S.g('Expression.list_of_leaf_expressions'), i))
+
+
+def leafP(S, i):
+    return Obj(S.elt(S.g('Point.list_of_leaf_points'), i))
